@@ -303,9 +303,115 @@ def out1(units, R):
                          key='write:%s' % b['n'])
                 elif b.get('k') == 'mem' and b['f'] == 'buffer':
                     n += 1
-                    R.ob('OUT1', fn, node, 'write through %s' % expr_str(b), False, 'the output buffer is written without going through ensure()',
+                    okd, whyd = _direct_write_has_room(u, fn, nd, node, base, b)
+                    R.ob('OUT1', fn, node, 'write through %s' % expr_str(b), okd,
+                         whyd if okd else 'the output buffer is written without going through ensure()' + (': ' + whyd if whyd else ''),
                          key='rawwrite:%s' % expr_str(b))
     R.floor('OUT1', 'output writes in the print family', n, 35)
+
+
+def _direct_write_has_room(u, fn, nd, node, dest, bufmem):
+    """A write straight into P->buffer + P->offset that does not go through ensure(): fine where the code has shown for itself that
+    the bytes fit - the write is a bounded sprintf / constant-size copy of at most N bytes (terminator included) and is reached
+    only through edges that establish  P->offset < P->length  and  P->length - P->offset >= N  (written as > N-1, or as
+    P->offset + k < P->length)."""
+    P = expr_str(strip_casts(bufmem['b']))
+    d = strip_casts(dest)
+    # destination is exactly buffer + offset
+    parts = []
+    work = [d]
+    while work:
+        x = strip_casts(work.pop())
+        if x.get('k') == 'bin' and x['op'] == '+':
+            work += [x['l'], x['r']]
+        else:
+            parts.append(x)
+    offs = [x for x in parts if x.get('k') == 'mem' and x['f'] == 'offset' and expr_str(strip_casts(x['b'])) == P]
+    bufs = [x for x in parts if x.get('k') == 'mem' and x['f'] == 'buffer']
+    if len(parts) != 2 or len(offs) != 1 or len(bufs) != 1:
+        return False, ''
+    # how many bytes
+    need = None
+    if node.get('k') == 'call' and callee_name(node) == 'sprintf' and len(node['args']) >= 2 and strip_casts(node['args'][1]).get('k') == 'str':
+        tot = 0
+        ai = 2
+        for piece in parse_format(strip_casts(node['args'][1])['bytes']):
+            if piece[0] == 'lit':
+                tot += piece[1]
+                continue
+            arg = node['args'][ai] if ai < len(node['args']) else None
+            ai += 1
+            m = conv_max_len(piece, u, arg) if piece[1] != 's' else None
+            if m is None:
+                return False, 'the text printed has no bound'
+            tot += m
+        need = tot + 1
+    elif node.get('k') == 'call' and callee_name(node) in ('memcpy', 'memset') and len(node['args']) == 3 and const_val(node['args'][2]) is not None:
+        need = const_val(node['args'][2])
+    if need is None:
+        return False, ''
+    cfg = fn.cfg()
+
+    def side(e):
+        """('room', k): P->length - P->offset - k ; ('off', k): P->offset + k ; ('len',) ; ('k', c)"""
+        e = strip_casts(e)
+        c = const_val(e)
+        if c is not None:
+            return ('k', c)
+        if e.get('k') == 'mem' and expr_str(strip_casts(e['b'])) == P:
+            if e['f'] == 'length':
+                return ('len',)
+            if e['f'] == 'offset':
+                return ('off', 0)
+        if e.get('k') == 'bin' and e['op'] == '-':
+            l, r = side(e['l']), side(e['r'])
+            if l == ('len',) and r == ('off', 0):
+                return ('room', 0)
+        if e.get('k') == 'bin' and e['op'] == '+':
+            for (x, y) in ((e['l'], e['r']), (e['r'], e['l'])):
+                if side(x) == ('off', 0) and const_val(y) is not None:
+                    return ('off', const_val(y))
+        return None
+
+    def room_edge(nn, l):
+        if nn.kind != 'branch' or l is None or l[0] not in ('T', 'F') or nn.expr is None:
+            return False
+        e = strip_casts(nn.expr)
+        if e.get('k') != 'bin' or e['op'] not in ('<', '<=', '>', '>='):
+            return False
+        a, b_ = side(e['l']), side(e['r'])
+        op = e['op']
+        if l[0] == 'F':
+            op = {'<': '>=', '<=': '>', '>': '<=', '>=': '<'}[op]
+        if op in ('<', '<='):
+            a, b_, op = b_, a, {'<': '>', '<=': '>='}[op]
+        # a > b_  or a >= b_
+        if a is None or b_ is None:
+            return False
+        if a == ('room', 0) and b_[0] == 'k':
+            return b_[1] + (1 if op == '>' else 0) >= need
+        if a == ('len',) and b_[0] == 'off':
+            return b_[1] + (1 if op == '>' else 0) >= need
+        return False
+
+    def inside_edge(nn, l):
+        if nn.kind != 'branch' or l is None or l[0] not in ('T', 'F') or nn.expr is None:
+            return False
+        e = strip_casts(nn.expr)
+        if e.get('k') != 'bin' or e['op'] not in ('<', '<=', '>', '>='):
+            return False
+        a, b_ = side(e['l']), side(e['r'])
+        op = e['op']
+        if l[0] == 'F':
+            op = {'<': '>=', '<=': '>', '>': '<=', '>=': '<'}[op]
+        if op in ('<', '<='):
+            a, b_, op = b_, a, {'<': '>', '<=': '>='}[op]
+        return a == ('len',) and b_ is not None and b_[0] == 'off'
+    if guarded_by(cfg, nd.id, room_edge) and guarded_by(cfg, nd.id, inside_edge):
+        return True, 'at most %d bytes, and the write is reached only where offset lies inside the buffer and length - offset >= %d was tested' % (need, need)
+    if guarded_by(cfg, nd.id, inside_edge):
+        return False, 'at most %d bytes are written, but no test on the way establishes that many bytes between offset and length' % need
+    return False, ''
 
 
 # ---- OUT4 + ensure contract ----------------------------------------------------------------------------------------------------------
